@@ -14,6 +14,7 @@ from typing import Any
 import libcst as cst
 
 import pynguin.assertion.assertion as ass
+import pynguin.configuration as config
 import pynguin.utils.type_utils as tu
 from pynguin.utils.naming import get_module_alias
 
@@ -177,7 +178,9 @@ def _value_to_cst(value: Any) -> cst.BaseExpression:  # noqa: C901
         # EnumClass.MEMBER
         class_name = type(value).__name__
         member_name = value.name
-        return cst.Attribute(value=cst.Name(class_name), attr=cst.Name(member_name))
+        return cst.Attribute(
+            value=_enum_class_to_cst(type(value), class_name), attr=cst.Name(member_name)
+        )
     typ = type(value)
     if tu.is_list(typ):
         return cst.List(elements=[cst.Element(value=_value_to_cst(v)) for v in value])
@@ -206,6 +209,37 @@ def _value_to_cst(value: Any) -> cst.BaseExpression:  # noqa: C901
             ]
         )
     return cst.SimpleString(repr(value))
+
+
+def _enum_class_to_cst(enum_class: type, class_name: str) -> cst.BaseExpression:
+    """Render a reference to an enum class that resolves in the generated test file.
+
+    The test file binds the public top-level names of the module under test and the
+    module itself under its alias.  A public top-level enum is referenced by its bare
+    name; an enum of the module under test that is nested in a class or private is not
+    bound by its bare name, so it is reached through the module alias instead
+    (``alias.Outer.Mode``, ``alias._Hidden``).
+
+    Args:
+        enum_class: The enum class to reference.
+        class_name: The bare name of the class.
+
+    Returns:
+        The CST expression referencing the class.
+    """
+    module_name = config.configuration.module_name
+    qualname = enum_class.__qualname__
+    if (
+        module_name
+        and enum_class.__module__ == module_name
+        and "<locals>" not in qualname
+        and ("." in qualname or qualname.startswith("_"))
+    ):
+        expr: cst.BaseExpression = cst.Name(get_module_alias(module_name))
+        for part in qualname.split("."):
+            expr = cst.Attribute(value=expr, attr=cst.Name(part))
+        return expr
+    return cst.Name(class_name)
 
 
 def _type_name_assertion_to_cst(assertion: ass.TypeNameAssertion) -> cst.SimpleStatementLine:
